@@ -233,3 +233,12 @@ Theorem C15_txmd_proto_roundtrip_refuted_degenerate :
              txmd_bytes (txmd_from_proto (txmd_to_proto m)) <> txmd_bytes m).
 Proof. split; [exact txmd_proto_roundtrip_refuted_trunc0 | exact txmd_proto_roundtrip_refuted_extra_empty]. Qed.
 Print Assumptions C15_txmd_proto_roundtrip_refuted_degenerate.
+
+(* Proof terms (linear, dual and inclusion proofs travel as lists of digests): every list of
+   32-byte digests survives DigestsToProto followed by DigestsFromProto, and whatever message
+   arrives the converted list has the same number of terms, each exactly 32 bytes long. *)
+Theorem C15_digests_proto_roundtrip : forall l : list bytes,
+  (forallb digest_ok l = true -> digests_from_proto (digests_to_proto l) = l) /\
+  length (digests_from_proto l) = length l /\ forallb digest_ok (digests_from_proto l) = true.
+Proof. intros l. split; [exact (digests_proto_roundtrip l) | exact (digests_from_proto_shape l)]. Qed.
+Print Assumptions C15_digests_proto_roundtrip.
